@@ -56,6 +56,7 @@ structure Oracles where
   isoDate : String → Option (Option Date)                          -- date.fromisoformat beyond strict YYYY-MM-DD
   fltStr : UInt64 → Option String                                  -- str(float)
   round : UInt64 → Option Int → Option Val                         -- round(float[, n])
+  fmod : UInt64 → UInt64 → Option UInt64                           -- Python float `a % b` (b ≠ 0)
 
 structure Ctx where
   description : String
@@ -820,7 +821,20 @@ def eval (o : Oracles) (ctx : Ctx) : Expr → M Val
     let b ← eval o ctx r
     match op with
     | .div => if isZero b then pure (.int 0) else liftE (pyArith .div a b)
-    | .mod => if isZero b then pure (.int 0) else liftE (pyArith .mod a b)
+    | .mod =>
+      if isZero b then pure (.int 0) else
+      (match asNumber a, asNumber b with
+       | some x, some y =>
+         (match x, y with
+          | .i _, .i _ => liftE (pyArith .mod a b)
+          | _, _ =>
+            let bigInt := (match x with | .i n => n.natAbs ≥ 2 ^ 53 | _ => false) || (match y with | .i n => n.natAbs ≥ 2 ^ 53 | _ => false)
+            if bigInt then raise (.unmodelled "big int with float") else
+            let xb := B (numToFloat x); let yb := B (numToFloat y)
+            match o.fmod xb yb with
+            | some r => pure (.flt r)
+            | none => need "fmod" [toString xb.toNat, toString yb.toNat])
+       | _, _ => liftE (pyArith .mod a b))
     | _ => liftE (pyArith op a b)
   | .cmp l links => do
     let left ← eval o ctx l
